@@ -158,7 +158,7 @@ def unit_history(unit):
         for _ in range(60):
             if st.check() != z3.sat:
                 break
-            m = st.solver.model()
+            m = st.last_model()
             ccs = E.model_str(m, cc)
             present = sorted(k for k, b in proxy.present.items() if z3.is_true(m.eval(b, model_completion=True)))
             if ccs.lower() not in tried:
